@@ -100,12 +100,14 @@ def replay(path):
 MANIFEST = dict(
     category="proof",
     technique="Lean 4 theorems subst_error_kind / subst_idempotent / subst_result_subAccepts over the substitution model + "
-              "outcome correspondence",
+              "outcome correspondence"
+              " + from_native / substitutor translator",
     text="Theorems: the substitution model never fails with anything but SubstitutionError, for every schema and every "
          "value (subst_error_kind); a successful result is a schema that substitution-accepts the value "
          "(subst_result_subAccepts) and substituting the same value again returns it unchanged (subst_idempotent; "
          "subst_fromNative_self for fresh schemas); a union result is never empty (subst_any_nonempty). Tie: the resulting "
          "schema (structural encoding) or exception class of model and code compared on generated cases; search: exception "
-         "type, fake(S%v) under scripted draws validates, (S%v)%v == S%v on the real code.",
+         "type, fake(S%v) under scripted draws validates, (S%v)%v == S%v on the real code."
+         " Translator: the isinstance ladder of from_native and the three-statement idiom of every scalar Substitutor.visit_* are extracted (Gen/SubstProg.lean); fromNative_eq_extracted and subst_scalar_eq_extracted prove the hand model equal to them for every input. Source pins: the normalised text of every anchor file is compared with the text the model was last validated against; a changed file is a broken obligation (no-failing-input-found unless the search finds an input).",
     note="Partial under NoNaN (K6) for idempotence. Trusted: Lean kernel + standard axioms, hand model (sampling tie), "
          "codec.")
